@@ -21,6 +21,8 @@
 #include <cstring>
 #include <optional>
 #include <set>
+#include <map>
+#include <tuple>
 #include <array>
 #include <bitset>
 #include <sstream>
@@ -102,6 +104,8 @@ struct Dest {
    std::array<int, 3> sa{{0, 0, 0}};
    std::bitset<8> bs;
    std::vector<bool> vb;
+   std::map<int, int> kv;
+   std::tuple<int, int, int> tp{0, 0, 0};
    int n0, m0, l0, u0, d10, d20;
    Dest() : f(false), g(false), x(false), y(false), r(false), a(false), b(false), p(false), q(false) {
       n0 = n = (int) vs_u32("init"); m0 = m = (int) vs_u32("init"); l0 = l = (int) vs_u32("init"); u0 = u = (int) vs_u32("init");
@@ -148,6 +152,15 @@ void setup(Handler& ah, Dest& d, int cfg, int part /* 0 = all, 1/2 = halves for 
    } else if (cfg == 10) {
       if (in(1)) { ah.addArgument("l,list", DEST_VAR(d.v), "list")->setTakesMultiValue(); ah.addArgument("s,name", DEST_VAR(d.s), "name"); ah.addConstraint(one_of("l;name")); }
       if (in(2)) { ah.addArgument("n,number", DEST_VAR(d.n), "number"); ah.addArgument("f,flag", DEST_VAR(d.f), "flag"); ah.addArgument("-", DEST_VAR(d.fv), "free values"); }
+   } else if (cfg == 11) {
+      // key-value and tuple destinations
+      d.kv[1] = 5;
+      auto* k = ah.addArgument("m,map", DEST_VAR(d.kv), "key-value pairs (pairs separated by ';', key and value by ',')");
+      if (pa_opt & 1) k->setClearBeforeAssign();
+      if (pa_opt & 4) k->setUniqueData(false);
+      if (pa_opt & 8) k->setUniqueData(true);
+      ah.addArgument("t,tuple", DEST_VAR(d.tp), "tuple of three ints");
+      ah.addArgument("f,flag", DEST_VAR(d.f), "flag");
    } else if (cfg == 4) {
       ah.addArgument("a", DEST_VAR(d.a), "a"); ah.addArgument("b", DEST_VAR(d.b), "b"); ah.addArgument("n,number", DEST_VAR(d.n), "number");
       ah.addConstraint(one_of("a;b"));
@@ -235,6 +248,17 @@ void check_dests(const Tmpl& t, const Dest& d) {
       else if (k == "arr") check_vec(t, e, std::vector<int>(d.arr, d.arr + 3), "destination arr (int[3])");
       else if (k == "sa") check_vec(t, e, std::vector<int>(d.sa.begin(), d.sa.end()), "destination sa (std::array)");
       else if (k == "vb") { for (auto& part : split(e, ',')) { long pos = part[0] == '#' ? slot_int(t.slots[part[1] - '0']) : to_long(part); vs_assert((long) d.vb.size() > pos, "destination vb (vector<bool>) grew to hold the position"); if ((long) d.vb.size() > pos) vs_assert(d.vb[pos], "destination vb (vector<bool>) has the position set"); } }
+      else if (k == "kv") {        // "key:value" items joined by '+', in key order
+         auto parts = e == "_" ? std::vector<std::string>() : split(e, '+');
+         vs_assert(d.kv.size() == parts.size(), "destination kv (map) holds exactly the given pairs");
+         auto it = d.kv.begin();
+         for (size_t i = 0; i < parts.size() && it != d.kv.end(); ++i, ++it) {
+            auto kvp = split(parts[i], ':');
+            long ek = kvp[0][0] == '#' ? slot_int(t.slots[kvp[0][1] - '0']) : to_long(kvp[0]), ev = kvp[1][0] == '#' ? slot_int(t.slots[kvp[1][1] - '0']) : to_long(kvp[1]);
+            vs_assert((long) it->first == ek && (long) it->second == ev, "destination kv (map) key and value");
+         }
+      }
+      else if (k == "tp") check_vec(t, e, std::vector<int>{std::get<0>(d.tp), std::get<1>(d.tp), std::get<2>(d.tp)}, "destination tp (tuple)");
       else if (k == "bs") check_int(t, e, (int) d.bs.to_ulong(), 0, "destination bs (bitset)");
    }
 }
